@@ -56,9 +56,9 @@ pub fn run_grid(run: &Run, tier: Tier, profile: &str, shard: usize, nshards: usi
   let depth = if thorough { 3 } else { 2 };
   let or = O_ERRSTATE | O_SHADOW | O_CAPALIGN | O_FREELIST | O_ZERO | O_BOUNDS;
   let mut cells = crate::props_hist::cells(&[(Backend::Vec, false), (Backend::Vec, true), (Backend::Anon, true), (Backend::File, true)], 225, 256);
-  // the slow path is retried `maximum_retries` times: the two smallest values
+  // the slow path is retried `maximum_retries` times: the two smallest values and the largest
   for fl in [Fl::Optimistic, Fl::Pessimistic] {
-    for retries in [0u8, 1] {
+    for retries in [0u8, 1, 255] {
       let mut c = Cfg::new(fl, Backend::Vec, true, 256);
       c.retries = retries;
       cells.push(c);
@@ -213,8 +213,10 @@ pub fn run_grid(run: &Run, tier: Tier, profile: &str, shard: usize, nshards: usi
       }
       if sync {
         ro::<rarena_allocator::sync::Arena>(run, &cfg, &p, &finals, profile);
+        shrunk::<rarena_allocator::sync::Arena>(run, &cfg, profile);
       } else {
         ro::<rarena_allocator::unsync::Arena>(run, &cfg, &p, &finals, profile);
+        shrunk::<rarena_allocator::unsync::Arena>(run, &cfg, profile);
       }
     }
   }
@@ -310,6 +312,69 @@ fn write_child_result(run: &Run, out: &str, cut_short: bool) {
     "state_hashes": run.states.dump(), "nontrivial_hashes": run.nontrivial.dump(), "cut_short": cut_short,
   });
   std::fs::write(out, serde_json::to_string(&v).unwrap()).expect("write child result");
+}
+
+/// A file arena reopened writable with a capacity below its stored cursor (the library accepts that): every
+/// request is answered with an error, none panics, and the accessors do not wrap.
+fn shrunk<A: Subject>(run: &Run, cfg: &Cfg, profile: &str) {
+  use rarena_allocator::Error;
+  let p = fresh_path("c04shrunk");
+  {
+    let a: A = build(cfg, Some(&p)).unwrap();
+    let mut b = a.alloc_bytes(cfg.cap - cfg.data_offset() as u32 - 9).unwrap();
+    unsafe { rarena_allocator::Buffer::detach(&mut b) };
+  }
+  for cap in [cfg.cap / 2, cfg.cap - 16, cfg.data_offset() as u32 + 1] {
+    let o = cfg.options().with_capacity(cap).with_read(true).with_write(true);
+    let Ok(a): Result<A, _> = (unsafe { o.map_mut::<A, _>(&p) }) else { continue };
+    if a.allocated() <= a.capacity() {
+      continue;
+    }
+    let case = json!({"engine": "c04-shrunk", "flavour": A::FLAVOUR, "profile": profile, "cfg": cfg, "capacity": cap});
+    crate::crashguard::set_case(crate::crashguard::head_of(&case));
+    let calls: Vec<(&str, Box<dyn Fn(&A) -> Result<(), Error>>)> = vec![
+      ("alloc_bytes(1)", Box::new(|a: &A| a.alloc_bytes(1).map(|mut b| unsafe { rarena_allocator::Buffer::detach(&mut b) }))),
+      ("alloc_bytes(40)", Box::new(|a: &A| a.alloc_bytes(40).map(|mut b| unsafe { rarena_allocator::Buffer::detach(&mut b) }))),
+      ("alloc_bytes(u32::MAX)", Box::new(|a: &A| a.alloc_bytes(u32::MAX).map(|mut b| unsafe { rarena_allocator::Buffer::detach(&mut b) }))),
+      ("alloc_bytes_owned(8)", Box::new(|a: &A| a.alloc_bytes_owned(8).map(|mut b| unsafe { rarena_allocator::Buffer::detach(&mut b) }))),
+      ("alloc::<u64>()", Box::new(|a: &A| unsafe { a.alloc::<u64>() }.map(|mut b| unsafe { rarena_allocator::Buffer::detach(&mut b) }))),
+      ("alloc_aligned_bytes::<u64>(3)", Box::new(|a: &A| a.alloc_aligned_bytes::<u64>(3).map(|mut b| unsafe { rarena_allocator::Buffer::detach(&mut b) }))),
+      ("alloc_aligned_bytes::<u16>(u32::MAX - 2)", Box::new(|a: &A| a.alloc_aligned_bytes::<u16>(u32::MAX - 2).map(|mut b| unsafe { rarena_allocator::Buffer::detach(&mut b) }))),
+    ];
+    for (name, f) in &calls {
+      let before = (a.allocated(), a.discarded());
+      let r = std::panic::catch_unwind(std::panic::AssertUnwindSafe(|| (f(&a), a.remaining())));
+      run.eval(1);
+      let what = match r {
+        Err(_) => Some("panicked".to_string()),
+        Ok((Ok(()), _)) => Some("returned a handle".to_string()),
+        Ok((Err(Error::InsufficientSpace { .. }), rem)) if rem == 0 && (a.allocated(), a.discarded()) == before => None,
+        Ok((Err(e), rem)) => Some(format!("failed with {:?}, remaining() = {}, (allocated, discarded) {:?} -> {:?}", e, rem, before, (a.allocated(), a.discarded()))),
+      };
+      if let Some(w) = what {
+        run.violation(Violation { property: "C04".into(), signature: format!("C04:shrunk-reopen:{}:{}", name.split('(').next().unwrap_or(name), profile), message: format!("[{} profile, {} {:?} reopened with capacity {} below its cursor {}] {} {}", profile, A::FLAVOUR, cfg.fl, cap, before.0, name, w), replay: case.clone() });
+      }
+    }
+    crate::crashguard::clear_case();
+  }
+  let _ = std::fs::remove_file(&p);
+}
+
+pub fn replay_shrunk(case: &Value) -> i32 {
+  let cfg: Cfg = serde_json::from_value(case["cfg"].clone()).expect("cfg");
+  let run = Run::new("C04", Tier::Quick, "fault_enumeration");
+  let profile = case["profile"].as_str().unwrap_or("release").to_string();
+  if case["flavour"].as_str() == Some("unsync") {
+    shrunk::<rarena_allocator::unsync::Arena>(&run, &cfg, &profile);
+  } else {
+    shrunk::<rarena_allocator::sync::Arena>(&run, &cfg, &profile);
+  }
+  let v = run.violations.lock().unwrap();
+  for (sig, (_, x)) in v.iter() {
+    println!("  !! {}: {}", sig, x.message);
+  }
+  println!("replay c04-shrunk: {} violation(s)", v.len());
+  if v.is_empty() { 0 } else { 1 }
 }
 
 /// entry point of one shard (single-threaded child process): result dumped as JSON
